@@ -67,6 +67,18 @@ func run(s *kernel.Sim, c *scen.Case) {
 	case "fs":
 		// filesystem authentication between two real endpoints, on the real /tmp
 		methods = []security.AuthMethod{security.AuthFS}
+	case "ssl":
+		// SSL: TLS tunnelled in CEDAR messages, completion confirmations, session key
+		methods = []security.AuthMethod{security.AuthSSL}
+	}
+	var sw *hs.SSLWorld
+	if p.Shape == "ssl" {
+		var err error
+		if sw, err = hs.NewSSLWorld(); err != nil {
+			s.Violate("harness", "ssl-world", err.Error())
+			return
+		}
+		defer sw.Close()
 	}
 	cache := security.NewSessionCache()
 	mkc := func() *security.SecurityConfig {
@@ -78,11 +90,17 @@ func run(s *kernel.Sim, c *scen.Case) {
 		cfg.SessionCache = cache
 		cfg.TrustDomain = tw.Issuer
 		cfg.Token = tw.Token(hs.Now()-10, hs.Now()+3600)
+		if sw != nil {
+			sw.Client(cfg)
+		}
 		return cfg
 	}
 	mks := func() *security.SecurityConfig {
 		cfg := hs.Cfg(alevel, security.SecurityRequired, methods, hs.AES, security.NoCommand)
 		tw.ServerToken(cfg)
+		if sw != nil {
+			sw.Server(cfg)
+		}
 		return cfg
 	}
 	// context of the endpoint under test
@@ -414,6 +432,7 @@ var fsPathRE = regexp.MustCompile(`/tmp/FS_[A-Za-z0-9_.]{1,80}`)
 
 var combos = []struct{ shape, role string }{
 	{"fs", "client"}, {"fs", "server"},
+	{"ssl", "client"}, {"ssl", "server"},
 	{"plain", "sender"}, {"plain", "receiver"},
 	{"noauth", "client"}, {"noauth", "server"},
 	{"claimtobe", "client"}, {"claimtobe", "server"},
